@@ -15,7 +15,7 @@
 (***************************************************************************)
 EXTENDS Integers, Sequences, FiniteSets, TLC
 CONSTANTS MaxCnt,        \* repetition counts range over 0..MaxCnt
-          Faults         \* set of fault kinds explored: subset of {"none", "close", "garbage"}
+          Faults         \* set of fault kinds explored: subset of {"none", "close", "closeafter", "garbage"}
 VARIABLES cnt,           \* configuration: [reg, pdu, svc, rel, dereg]
           pc,            \* emulator program counter <<phase, i, step>>; phase 0 = NG Setup, 6 = finished
           ue,            \* emulator-side UE contexts
@@ -139,6 +139,8 @@ Deliver(q, outs, f, n) ==     \* returns <<queue, fault>>; n = number of downlin
    IF Len(outs) = 0 THEN <<q, f>>
    ELSE IF f.closed THEN Deliver(q, Tail(outs), f, n + 1)
    ELSE IF f.kind = "close" /\ n = f.at THEN Deliver(q, Tail(outs), [f EXCEPT !.fired = TRUE, !.closed = TRUE], n + 1)
+   \* the peer answers and is gone at once: message n is still delivered, nothing after it, and the emulator's next write fails
+   ELSE IF f.kind = "closeafter" /\ n = f.at THEN Deliver(Append(q, Head(outs)), Tail(outs), [f EXCEPT !.fired = TRUE, !.closed = TRUE], n + 1)
    ELSE IF f.kind = "garbage" /\ n = f.at /\ ~f.fired /\ Head(outs).t # "DL_CfgUpd"
         THEN Deliver(Append(q, [t |-> "garbage", amfId |-> -1]), Tail(outs), [f EXCEPT !.fired = TRUE], n + 1)
    ELSE Deliver(Append(q, Head(outs)), Tail(outs), f, n + 1)
